@@ -407,6 +407,70 @@ fn a_extras(rt: &tokio::runtime::Runtime, bag: &mut VioBag) -> u64 {
             }
         }
     }
+    // a request whose pre-set addresses were taken out (`take_addrs`) is unresolved again: the TCP
+    // connector answers `Unresolved`, a connector with a resolver consults it
+    for n_addrs in 1..=2usize {
+        let live = make_target(true);
+        let stale: Vec<SocketAddr> = (0..n_addrs).map(|_| make_target(false).addr).collect();
+        for via_resolver in [false, true] {
+            n += 1;
+            let calls = Rc::new(RefCell::new(vec![]));
+            let mut req = ConnectInfo::new("name.test".to_string()).set_port(live.addr.port()).set_addrs(stale.clone());
+            let taken: Vec<SocketAddr> = req.take_addrs().collect();
+            let left = req.addrs().count();
+            let out = rt.block_on(async {
+                if via_resolver {
+                    let resolver = Resolver::custom(LogResolver { answer: Ok(vec![live.addr]), calls: calls.clone() });
+                    tokio::time::timeout(Duration::from_secs(10), Connector::new(resolver).service().call(req)).await.map(|r| r.map(|c| c.into_parts().0.peer_addr().unwrap()).map_err(|e| err_name(&e)))
+                } else {
+                    tokio::time::timeout(Duration::from_secs(10), connect::tcp::TcpConnector::default().service().call(req)).await.map(|r| r.map(|c| c.into_parts().0.peer_addr().unwrap()).map_err(|e| err_name(&e)))
+                }
+            });
+            let ok = taken == stale && left == 0 && match (&out, via_resolver) {
+                (Ok(Ok(peer)), true) => *peer == live.addr && calls.borrow().len() == 1,
+                (Ok(Err(e)), false) => e == "Unresolved",
+                _ => false,
+            };
+            if !ok {
+                bag.add("C19:request-still-resolved-after-take_addrs", || Violation {
+                    signature: "C19:request-still-resolved-after-take_addrs".into(),
+                    summary: format!("request with {n_addrs} pre-set address(es), all taken out with take_addrs (returned {:?}, {left} left on the request), then sent to {}: {:?}, resolver calls {:?}", taken, if via_resolver { "a Connector with a custom resolver (expected: resolver consulted once, its address dialled)" } else { "the bare TcpConnector (expected: Unresolved)" }, out, calls.borrow()),
+                    replay: json!({"part": "extras"}),
+                });
+            }
+        }
+    }
+    // a Connector used as a ServiceFactory keeps its configured resolver
+    {
+        use actix_service::ServiceFactory;
+        let live = make_target(true);
+        for answer in [Ok(vec![live.addr]), Ok(vec![]), Err("lookup failed".to_string())] {
+            n += 1;
+            let calls = Rc::new(RefCell::new(vec![]));
+            let resolver = Resolver::custom(LogResolver { answer: answer.clone(), calls: calls.clone() });
+            let connector = Connector::new(resolver);
+            let out = rt.block_on(async {
+                let svc = ServiceFactory::<ConnectInfo<String>>::new_service(&connector, ()).await.expect("new_service");
+                tokio::time::timeout(Duration::from_secs(10), svc.call(ConnectInfo::new(format!("name.test:{}", live.addr.port())))).await.map(|r| r.map(|c| c.into_parts().0.peer_addr().unwrap()).map_err(|e| err_name(&e)))
+            });
+            let want: Result<SocketAddr, String> = match &answer {
+                Ok(v) if v.is_empty() => Err("NoRecords".into()),
+                Ok(v) => Ok(v[0]),
+                Err(_) => Err("Resolver".into()),
+            };
+            let got = match out {
+                Ok(r) => r,
+                Err(_) => Err("hang".into()),
+            };
+            if got != want || calls.borrow().len() != 1 {
+                bag.add("C19:service-built-by-the-factory-ignores-the-resolver", || Violation {
+                    signature: "C19:service-built-by-the-factory-ignores-the-resolver".into(),
+                    summary: format!("Connector::new(custom resolver) used as a ServiceFactory (new_service): outcome {:?}, expected {:?}; the custom resolver was called {} time(s), expected 1", got, want, calls.borrow().len()),
+                    replay: json!({"part": "extras"}),
+                });
+            }
+        }
+    }
     // a bare ResolverService leaves pre-set addresses alone
     n += 1;
     let keep: SocketAddr = "127.89.7.9:4242".parse().unwrap();
